@@ -16,6 +16,7 @@ from .engine import (GEN, NOTATION, V, VNONE, Unsupported, _fresh, arr_sort_for,
 from .sorts import BOOL, IDS, INT, NONE, PY, REAL, STR, List, Ref, classes_of, is_intlike, show
 
 UFUNCS = {}   # name -> (argsorts, retsort, z3 function)
+NONNEG = {"natoms", "gnodes", "gedges", "gcomps"}
 
 
 def ufunc(name, argsorts, retsort):
@@ -80,6 +81,8 @@ class SpecEval:
     def e_Attribute(self, node):
         if isinstance(node.value, ast.Name) and node.value.id in R.ENUM_NS:
             return py(R.ENUM_NS[node.value.id][node.attr])
+        if self._is_old_call(node.value):
+            raise Unsupported(f"contract text {ast.unparse(node)!r}: old(e).f reads the CURRENT heap through an old reference; write old(e.f)")
         o = self.eval(node.value)
         if o.s[0] == "ref":
             cl = [c for c in classes_of(o.s)]
@@ -105,7 +108,13 @@ class SpecEval:
             return V(res.s, t)
         raise Unsupported(f"spec: attribute {node.attr} of {o}")
 
+    @staticmethod
+    def _is_old_call(n):
+        return isinstance(n, ast.Call) and isinstance(n.func, ast.Name) and n.func.id in ("old", "at_loop_entry")
+
     def e_Subscript(self, node):
+        if self._is_old_call(node.value):
+            raise Unsupported(f"contract text {ast.unparse(node)!r}: old(e)[k] reads the CURRENT heap through an old reference; write old(e[k])")
         o = self.eval(node.value)
         if isinstance(node.slice, ast.Slice):
             raise Unsupported("spec: slice")
@@ -275,7 +284,10 @@ class SpecEval:
             if n in UFUNCS:
                 sorts, ret, fn = UFUNCS[n]
                 args = [self.eng.coerce(self.eval(a), s).t for a, s in zip(node.args, sorts)]
-                return V(ret, fn(*args))
+                app = fn(*args)
+                if n in NONNEG:
+                    self.st.assume(app >= 0)       # counts are non-negative (part of the assumed contracts of RDKit / networkx values)
+                return V(ret, app)
         if isinstance(f, ast.Attribute):
             recv = self.eval(f.value)
             lr = lift(recv) if recv.s == PY else recv
@@ -438,6 +450,8 @@ class SpecEval:
         return now, before
 
     def _field_names(self, spec):
+        if spec in ("obj.owner", "obj.tag"):
+            return [spec]
         if spec == "list":
             return ["list.len", "list.I", "list.R", "list.S", "list.nan"]
         cname, fname = spec.split(".", 1)
@@ -473,6 +487,28 @@ class SpecEval:
                 g.append(o <= (base.heap.alloc if base is not None else self._alloc0()))
             conj.append(z3.ForAll([o], z3.Implies(z3.And(g) if g else z3.BoolVal(True), z3.Select(now, o) == z3.Select(before, o))))
         return V(BOOL, z3.And(conj) if conj else z3.BoolVal(True))
+
+    def _outside(self, node, base):
+        """unchanged_outside('Class.field', lo, hi): every object with id outside [lo, hi) keeps the field value it had (entry / loop entry)"""
+        lo, hi = lift(self.eval(node.args[1])).t, lift(self.eval(node.args[2])).t
+        conj = []
+        for nm in self._field_names(node.args[0].value):
+            now, before = self._arr_pair(nm, base)
+            if now.eq(before):
+                continue
+            o = z3.Int(f"o!{next(_fresh)}")
+            conj.append(z3.ForAll([o], z3.Implies(z3.Or(o < lo, o >= hi), z3.Select(now, o) == z3.Select(before, o))))
+        return V(BOOL, z3.And(conj) if conj else z3.BoolVal(True))
+
+    def c_unchanged_outside(self, node):
+        return self._outside(node, None)
+
+    def c_loop_unchanged_outside(self, node):
+        return self._outside(node, self.st.loop_entry)
+
+    def c_ident(self, node):
+        """object identity as an integer (for block-allocation facts of deepcopy)"""
+        return V(INT, self.eval(node.args[0]).t)
 
     def c_lists_unchanged_except(self, node):
         objs = [self.eval(a).t for a in node.args]
